@@ -30,3 +30,25 @@ VARIANTS += [
  V("c07-w1-placeholder-marked-applied-early", "C07", "C06.W1", "commit.go",
    "	p.mu.Unlock()\n\n	// Invoke the apply callback.\n	apply(b.SeqNum())", "	p.mu.Unlock()\n	b.applied.Store(true)\n\n	// Invoke the apply callback.\n	apply(b.SeqNum())"),
 ]
+VARIANTS += [
+ V("c42-f1-second-flush-goroutine", "C42", "C42.F1", "compaction.go",
+   "	if d.mu.compact.flushing || d.closed.Load() != nil || d.opts.ReadOnly {\n		return\n	}\n	if len(d.mu.mem.queue) <= 1 {", "	if d.closed.Load() != nil || d.opts.ReadOnly {\n		return\n	}\n	if len(d.mu.mem.queue) <= 1 {"),
+ V("c42-f1-loglock-does-not-wait", "C42", "C42.F1", "version_set.go",
+   "	for vs.writing {\n		// Note: writerCond.L is DB.mu, so we unlock it while we wait.\n		vs.writerCond.Wait()\n	}\n	vs.writing = true", "	if vs.getFormatMajorVersion == nil {\n		vs.writerCond.Wait()\n	}\n	vs.writing = true"),
+]
+VARIANTS += [
+ V("c36-o3-prepare-skips-flushable-ingests", "C36", "C36.O3", "ingest.go",
+   "			m := d.mu.mem.queue[i]\n			m.computePossibleOverlaps(func(b bounded) shouldContinue {", "			m := d.mu.mem.queue[i]\n			if _, ok := m.flushable.(*ingestedFlushable); ok {\n				continue\n			}\n			m.computePossibleOverlaps(func(b bounded) shouldContinue {"),
+ V("c37-o4-transition-skips-flushable-ingests", "C37", "C37.O4", "compaction.go",
+   "				// NB: computePossibleOverlaps could have false positives, such as if\n", "				if _, ok := d.mu.mem.queue[i].flushable.(*ingestedFlushable); ok {\n					continue\n				}\n				// NB: computePossibleOverlaps could have false positives, such as if\n"),
+]
+VARIANTS += [
+ V("c43-e4-tail-write-overwrites-block-error", "C43", "C43.E4", "record/log_writer.go",
+   "	if n := len(data); err == nil && n > 0 {", "	if n := len(data); n > 0 {"),
+]
+VARIANTS += [
+ V("c34-p1-read-entry-leaked-on-error", "C34", "C34.P1", "internal/cache/cache.go",
+   "	if err != nil || cv != nil {\n		re.unrefAndTryRemoveFromMap()\n		return cv, ReadHandle{}, errorDuration, waitDuration, false, err\n	}", "	if err != nil {\n		return nil, ReadHandle{}, errorDuration, waitDuration, false, err\n	}\n	if cv != nil {\n		re.unrefAndTryRemoveFromMap()\n		return cv, ReadHandle{}, errorDuration, waitDuration, false, nil\n	}"),
+ V("c41-e1-marker-close-error-dropped", "C41", "C41.E1", "objstorage/objstorageprovider/remote.go",
+   "	if err == nil {\n		// The object is empty, just close the writer.\n		err = writer.Close()\n	}", "	if err == nil {\n		defer func() { _ = writer.Close() }()\n	}"),
+]
